@@ -4,7 +4,8 @@
 to /repo (undone straight afterwards), and keep it as /verif/seeded/<Cnn>-<v>/ {patch.diff, demo.py, NOTES.md, meta.json}."""
 import json, os, re, shutil, subprocess, sys
 pid, v, needs = sys.argv[1], sys.argv[2], sys.argv[3]
-W = '/tmp/wt/%s' % pid
+W = sys.argv[sys.argv.index('--wt') + 1] if '--wt' in sys.argv else '/tmp/wt/%s' % pid
+save_as = sys.argv[sys.argv.index('--as') + 1] if '--as' in sys.argv else v
 P = '%s/_seed/patch_%s.diff' % (W, v)
 D = '_seed/demo_%s.py' % v
 out = subprocess.run(['/verif/tools/seedtest.sh', W, P, D], capture_output=True, text=True).stdout
@@ -26,7 +27,7 @@ ok = demo_orig == 'exit=0' and baseline_ok and demo_changed == 'exit=1'
 print('%s-%s confirmed=%s detected_by=%s' % (pid, v, ok, [d[0] for d in detected if d[1] == '1']))
 if not ok:
     sys.exit(1)
-dst = '/verif/seeded/%s-%s' % (pid, v)
+dst = '/verif/seeded/%s-%s' % (pid, save_as)
 os.makedirs(dst, exist_ok=True)
 shutil.copy(P, dst + '/patch.diff')
 shutil.copy('%s/%s' % (W, D), dst + '/demo.py')
@@ -34,7 +35,7 @@ if os.path.exists(W + '/_seed/NOTES.md'):
     shutil.copy(W + '/_seed/NOTES.md', dst + '/NOTES.md')
 meta = {
     'property_broken': pid,
-    'variant': v,
+    'variant': save_as,
     'origin': 'independent sub-agent given only the property text and a scratch worktree of /repo (nothing from /verif)',
     'needs_to_manifest': needs,
     'confirmed_by_me': {
